@@ -905,6 +905,11 @@ func (e *ConditionalExpr) Value(ctx *hcl.EvalContext) (cty.Value, hcl.Diagnostic
 
 	if condResult.True() {
 		diags = append(diags, trueDiags...)
+		// The type of the unselected result took part in choosing the result
+		// type above, so marks anywhere inside it must survive even though
+		// its value is discarded.
+		_, otherMarks := falseResult.UnmarkDeep()
+		resMarks = append(resMarks, otherMarks)
 		if convs[0] != nil {
 			var err error
 			trueResult, err = convs[0](trueResult)
@@ -928,6 +933,8 @@ func (e *ConditionalExpr) Value(ctx *hcl.EvalContext) (cty.Value, hcl.Diagnostic
 		return trueResult.WithMarks(resMarks...), diags
 	} else {
 		diags = append(diags, falseDiags...)
+		_, otherMarks := trueResult.UnmarkDeep()
+		resMarks = append(resMarks, otherMarks)
 		if convs[1] != nil {
 			var err error
 			falseResult, err = convs[1](falseResult)
